@@ -68,6 +68,12 @@ func runSplit(keys []ech.Key, target echx.KeyPair, aead uint16, retry bool, spli
 		}
 	}
 	b1 := s1.Build()
+	if variant == "low-order-enc" {
+		// the encapsulated key is a point of small order (all zero): no key agreement with it yields a usable secret, so the
+		// payload is undecryptable for every key - a hello like any other that cannot be opened
+		b1.Outer = b1.Outer.Clone()
+		b1.Outer.Exts[s1.EchIdx] = tlsref.ECHOuter(1, aead, 42, make([]byte, 32), tlsref.DetBytes("c09-undecryptable", 180))
+	}
 	// the keys are the caller's memory: configs and private keys must come back bit for bit
 	snapshot := make([]ech.Key, len(keys))
 	for i, k := range keys {
@@ -110,7 +116,16 @@ func runSplit(keys []ech.Key, target echx.KeyPair, aead uint16, retry bool, spli
 	if variant == "retry-seq2" {
 		b1.Sealer.Ctx.Seq = 2
 	}
-	b2 := spec(target, aead, 65).BuildWith(b1.Sealer, false)
+	s2 := spec(target, aead, 65)
+	if variant == "retry-sni-of-another-key" {
+		// only the SECOND hello names another listed key's public name in its outer server name
+		for i, e := range s2.Outer.Exts {
+			if e.Type == tlsref.ExtSNI {
+				s2.Outer.Exts[i] = tlsref.SNI(otherPublicName)
+			}
+		}
+	}
+	b2 := s2.BuildWith(b1.Sealer, false)
 	second, rerr, p := sess.ClientSend(b2.Outer.Record())
 	if p != nil {
 		return "", p
@@ -183,8 +198,8 @@ func Run(r *ev.Run) {
 	var cases []kcase
 	for _, aead := range []uint16{1, 2, 3} {
 		for _, retry := range []bool{false, true} {
-			for _, tgt := range []string{"T", "U", "T:sni-of-another-key", "T:retry-seq2", "B"} {
-				if tgt == "T:retry-seq2" && !retry {
+			for _, tgt := range []string{"T", "U", "T:sni-of-another-key", "T:retry-seq2", "B", "T:retry-sni-of-another-key", "U:low-order-enc"} {
+				if (tgt == "T:retry-seq2" || tgt == "T:retry-sni-of-another-key") && !retry || tgt == "U:low-order-enc" && retry {
 					continue
 				}
 				// (target B: the hello is sealed to key B with the AEAD that B's config does NOT list, consistently: never
@@ -234,7 +249,7 @@ func Run(r *ev.Run) {
 	for _, aead := range []uint16{1, 2, 3} {
 		ks := mk(aead)
 		for _, retry := range []bool{false, true} {
-			for _, tgt := range []string{"T", "U", "T:sni-of-another-key", "T:retry-seq2", "B"} {
+			for _, tgt := range []string{"T", "U", "T:sni-of-another-key", "T:retry-seq2", "B", "T:retry-sni-of-another-key", "U:low-order-enc"} {
 				for _, hasT := range []bool{false, true} {
 					var keys []ech.Key
 					if hasT {
